@@ -140,24 +140,25 @@ package bastion
 //@   ensures[C10.map] updated && upd_err == witness.ErrRootMismatch ==> wh_code == 409 && n_hdr == old(n_hdr)
 //@   ensures[C10.map] updated && upd_err == witness.ErrInvalidProof ==> wh_code == 422
 
-// Composition of writer and reader (C11): the body cmd/feedbastion writes for k proof hashes held in (row, off) and
+// Composition of writer and reader (C11): the body cmd/feedbastion writes for old size n, k proof hashes held in (row, off) and
 // checkpoint text cp,
-//     "old 0\n" ++ encPre(row, off, k) ++ "\n" ++ cp        (postcondition of (*bastionClient).Update)
-// is the well-formed input of parseBody's round-trip clause with old size 0,
-//     "old " ++ fmt_du(0) ++ "\n" ++ encRest(row, off, 0, k, cp).
+//     ("old " ++ fmt_du(n) ++ "\n") ++ encPre(row, off, k) ++ "\n" ++ cp        (postcondition of (*bastionClient).Update)
+// is the well-formed input of parseBody's round-trip clause with that old size,
+//     "old " ++ fmt_du(n) ++ "\n" ++ encRest(row, off, 0, k, cp).
 // Proved by induction on i (downwards from k) on  encPre(i) ++ encRest(i) == encPre(k) ++ "\n" ++ cp.
 //@ func verifLemmaEncodings
 //@   requires 0 <= k
 //@   let row := G_row()
 //@   let off := G_off()
 //@   let cp  := G_cp()
-//@   ensures[C11.comp] cat2("old 0\n" ++ encPre(row, off, k), "\n" ++ cp) == "old " ++ fmt_du(0) ++ "\n" ++ encRest(row, off, 0, k, cp)
+//@   let n   := G_n()
+//@   ensures[C11.comp] cat2(cat2("old " ++ fmt_du(n) ++ "\n", encPre(row, off, k)), "\n" ++ cp) == "old " ++ fmt_du(n) ++ "\n" ++ encRest(row, off, 0, k, cp)
 //@   hint encRest_end(row, off, k, k, cp)
 //@   hint encPre_0(row, off)
 //@   hint scat_unit(encRest(row, off, 0, k, cp))
-//@   hint scat_assoc("old 0\n", encPre(row, off, k), "\n" ++ cp)
-//@   hint scat_assoc("old ", cat2("0", "\n"), encRest(row, off, 0, k, cp))
-//@   hint scat_assoc("0", "\n", encRest(row, off, 0, k, cp))
+//@   hint scat_assoc("old " ++ fmt_du(n) ++ "\n", encPre(row, off, k), "\n" ++ cp)
+//@   hint scat_assoc("old ", fmt_du(n) ++ "\n", encRest(row, off, 0, k, cp))
+//@   hint scat_assoc(fmt_du(n), "\n", encRest(row, off, 0, k, cp))
 //@   hint#1 encPre_s(row, off, i)
 //@   hint#1 encRest_step(row, off, i - 1, k, cp)
 //@   hint#1 scat_assoc(encPre(row, off, i - 1), b64enc(str(row[off + (i - 1)])) ++ "\n", encRest(row, off, i, k, cp))
